@@ -29,11 +29,24 @@ type c34Scn struct {
 // ---- CheckAndSet ----
 
 func c34CAS(nTry, nRetry int, hold time.Duration) func(*vs.Sched, func(string, string, ...any)) string {
+	return c34CASLabel(nTry, nRetry, hold, "")
+}
+
+// c34CASLabel: with a non-empty label every thread presents the SAME owner string (rqlite's owner strings
+// name the kind of operation - "backup", "snapshot" - not the caller, so two backups do): the gate must
+// still admit one holder at a time.
+func c34CASLabel(nTry, nRetry int, hold time.Duration, label string) func(*vs.Sched, func(string, string, ...any)) string {
 	return func(s *vs.Sched, vio func(string, string, ...any)) string {
 		c := NewCheckAndSet()
 		holders := 0 // between successful Begin and the return of End
 		inCS := 0
 		var log []string
+		own := func(name string) string { // the owner string a thread presents
+			if label != "" {
+				return label
+			}
+			return name
+		}
 		cs := func(name string) {
 			inCS++
 			if inCS != 1 {
@@ -46,7 +59,7 @@ func c34CAS(nTry, nRetry int, hold time.Duration) func(*vs.Sched, func(string, s
 			if inCS != 1 {
 				vio("C34:cas-two-holders", "%s inside with %d holders", name, inCS)
 			}
-			if o := c.Owner(); o != name {
+			if o := c.Owner(); o != own(name) {
 				vio("C34:cas-owner-wrong", "owner reported %q while %s holds the gate", o, name)
 			}
 			inCS--
@@ -54,7 +67,7 @@ func c34CAS(nTry, nRetry int, hold time.Duration) func(*vs.Sched, func(string, s
 		for i := 0; i < nTry; i++ {
 			name := fmt.Sprintf("try%d", i)
 			s.Go(name, func() {
-				err := c.Begin(name)
+				err := c.Begin(own(name))
 				if err != nil {
 					if holders == 0 {
 						vio("C34:cas-spurious-conflict", "%s: Begin failed (%v) although nobody held the gate", name, err)
@@ -76,7 +89,7 @@ func c34CAS(nTry, nRetry int, hold time.Duration) func(*vs.Sched, func(string, s
 			name := fmt.Sprintf("retry%d", i)
 			s.Go(name, func() {
 				t0 := time.Now()
-				err := c.BeginWithRetry(name, time.Second, 100*time.Millisecond)
+				err := c.BeginWithRetry(own(name), time.Second, 100*time.Millisecond)
 				if err != nil {
 					if !errors.Is(err, ErrCASConflictTimeout) {
 						vio("C34:cas-wrong-error", "%s: %v", name, err)
@@ -424,6 +437,7 @@ func TestVerif_C34(t *testing.T) {
 		{"rt-2sub-1sig", c34RT([]uint64{1, 2}, [][]uint64{{1, 2}}, -1), -1, -1},
 		{"rt-3sub-2sig", c34RT([]uint64{1, 2, 3}, [][]uint64{{2}, {1}}, -1), 2, 3},
 		{"rt-unsub", c34RT([]uint64{2, 2}, [][]uint64{{1, 2}}, 0), -1, -1},
+		{"cas-2try-1retry-same-owner-label", c34CASLabel(2, 1, 50*time.Millisecond, "backup"), -1, -1},
 		{"mrsw-W-Q-Q", c34MRSW([]string{"W", "Q", "Q"}), -1, -1},
 		{"mrsw-W-Q-Q-Q", c34MRSW([]string{"W", "Q", "Q", "Q"}), 3, 4},
 		{"rt-reset-3-then-2", c34RTReset(3, 2), -1, -1},
